@@ -12,7 +12,7 @@ def load_ir(R):
         R.notes.append('functions outside the IR subset: %r' % bad[:10])
 
 
-def avr_pass(R, names):
+def avr_pass(R, names, leave_out=()):
     """the same contracts on the IR of the same sources compiled for AVR (16-bit int and pointers, int16_t = int, int32_t = long):
     obligations carry the suffix @avr; functions whose contract or environment model fixes 64-bit pointer sorts are listed, not
     decided, in this pass (they stay decided for the x86-64 model)"""
@@ -31,6 +31,10 @@ def avr_pass(R, names):
         len(names) - len(skipped), len(skipped), [(n[:60], r[:60]) for n, r in skipped][:6]))
     R.assumptions.append('data model: every obligation is discharged for x86-64 (LP64); the functions marked [avr] in functions_under_contract are '
                          'verified a second time on the IR compiled with --target=avr (16-bit int, 16-bit pointers), obligations suffixed @avr')
+    if leave_out:
+        kept = [o for o in obs if not any(k in o.name for k in leave_out)]
+        R.notes.append('AVR pass: %d obligation(s) matching %r are NOT decided under the 16-bit model (every back end timed out) and are left out of this pass; they are decided for x86-64' % (len(obs) - len(kept), list(leave_out)))
+        obs = kept
     R.log('AVR pass: %d functions, %d obligations (%.1fs)' % (len(names), len(obs), time.time() - t))
     return obs
 
